@@ -542,12 +542,7 @@ class PositionArray(PosBase):
         self.system = getattr(obj, "system", None)
         self.ellipsoid = getattr(obj, "ellipsoid", ellipsoid.GRS80)
         for attr in self._attributes():
-            attr_sliced = getattr(obj, f"_{attr}_sliced", None)
-            if attr_sliced is not None:
-
-                setattr(self, attr, attr_sliced)
-            else:
-                setattr(self, attr, getattr(obj, attr, None))
+            setattr(self, attr, getattr(obj, attr, None))
 
     def __getitem__(self, item):
         """Update attributes with correct shape, used by __array_finalize__"""
@@ -558,16 +553,13 @@ class PositionArray(PosBase):
 
         from_super = super().__getitem__(item)
 
-        # Get row or rows
-        if isinstance(item, (int, np.int_, slice)):
+        # Get row or rows, the attributes follow the same index
+        if isinstance(item, (int, np.int_, slice, list, np.ndarray)):
             pos_args = {}
             for attr in self._attributes():
                 orig_value = getattr(self, attr, None)
                 if orig_value is not None:
-                    sliced_value = orig_value[item]
-                    sliced_attr = f"_{attr}_sliced"
-                    setattr(self, sliced_attr, sliced_value)
-                    pos_args[attr] = sliced_value
+                    pos_args[attr] = orig_value[item]
             return self.__class__(from_super, self.ellipsoid, **pos_args)
 
         return from_super
@@ -990,11 +982,7 @@ class PositionDeltaArray(PosBase):
         self.system = getattr(obj, "system", None)
 
         for attr in self._attributes() + ["ref_pos"]:
-            attr_sliced = getattr(obj, f"_{attr}_sliced", None)
-            if attr_sliced is not None:
-                setattr(self, attr, attr_sliced)
-            else:
-                setattr(self, attr, getattr(obj, attr, None))
+            setattr(self, attr, getattr(obj, attr, None))
 
     def __getitem__(self, item):
         """Update attributes with correct shape, used by __array_finalize__"""
@@ -1004,16 +992,13 @@ class PositionDeltaArray(PosBase):
 
         from_super = super().__getitem__(item)
 
-        # Get row or rows
-        if isinstance(item, (int, np.int_, slice)):
+        # Get row or rows, the attributes follow the same index
+        if isinstance(item, (int, np.int_, slice, list, np.ndarray)):
             pos_args = {}
             for attr in self._attributes() + ["ref_pos"]:
                 orig_value = getattr(self, attr, None)
                 if orig_value is not None:
-                    sliced_value = orig_value[item]
-                    sliced_attr = f"_{attr}_sliced"
-                    setattr(self, sliced_attr, sliced_value)
-                    pos_args[attr] = sliced_value
+                    pos_args[attr] = orig_value[item]
             return self.__class__(from_super, **pos_args)
 
         return from_super
